@@ -22,6 +22,9 @@ type mnode struct {
 	Fold bool    `json:"fold,omitempty"`
 	Cap  int     `json:"cap,omitempty"`
 	Deco bool    `json:"decorated,omitempty"` // symbol, delimiter, parenthetical, lead-once, no-padding, encapsulation, ID, category all set
+	// Share: below this node, Stacks and Conditions with the same description are ONE instance stored in
+	// several places (siblings, different branches): still a finite tree as far as Unmarshal is concerned
+	Share bool `json:"shared_instances,omitempty"`
 }
 
 func (n mnode) String() string {
@@ -49,6 +52,9 @@ func (n mnode) String() string {
 	if n.Deco {
 		f += "*"
 	}
+	if n.Share {
+		f += "&"
+	}
 	return n.Kind + f + "[" + strings.Join(p, " ") + "]"
 }
 
@@ -74,12 +80,25 @@ func mOp(i int) stackage.Operator {
 	return stackage.ComparisonOperator(i)
 }
 
-func (n mnode) build() any {
+func (n mnode) build() any { return n.buildWith(nil) }
+
+func (n mnode) buildWith(shared map[string]any) (out any) {
+	if n.T != "leaf" {
+		if n.Share && shared == nil {
+			shared = map[string]any{}
+		}
+		if shared != nil {
+			if v, ok := shared[n.String()]; ok {
+				return v
+			}
+			defer func() { shared[n.String()] = out }()
+		}
+	}
 	switch n.T {
 	case "leaf":
 		return n.leaf()
 	case "cond":
-		c := stackage.Cond(n.Kw, mOp(n.Op), n.Kids[0].build())
+		c := stackage.Cond(n.Kw, mOp(n.Op), n.Kids[0].buildWith(shared))
 		if n.Deco {
 			// flags set after the fact must not change what Unmarshal hands out
 			c.SetNoNesting(true).SetParen(true).SetNoPadding(true).SetEncap("'").SetID("cid").SetCategory("ccat")
@@ -101,7 +120,7 @@ func (n mnode) build() any {
 	}
 	var vals []any
 	for _, k := range n.Kids {
-		vals = append(vals, k.build())
+		vals = append(vals, k.buildWith(shared))
 	}
 	fill(s, vals, fillMode(n.String()))
 	return s
@@ -339,16 +358,23 @@ func reverseDesc(n mnode) mnode {
 	return n
 }
 
-func reverseLive(v any) {
+func reverseLive(v any, seen ...map[string]bool) {
+	if len(seen) == 0 {
+		seen = []map[string]bool{{}}
+	}
 	if s, ok := refAsStack(v); ok {
+		if seen[0][s.Addr()] {
+			return // one instance stored in several places is reversed once
+		}
+		seen[0][s.Addr()] = true
 		s.Reverse()
 		for _, e := range contents(s) {
-			reverseLive(e)
+			reverseLive(e, seen[0])
 		}
 		return
 	}
 	if cd, ok := refAsCond(v); ok {
-		reverseLive(cd.Expression())
+		reverseLive(cd.Expression(), seen[0])
 	}
 }
 
@@ -442,6 +468,16 @@ func c04Trees(c *Ctx) []mnode {
 		deco := d1[i]
 		deco.Deco = true
 		trees = append(trees, deco, mnode{T: "stack", Kind: kindNames[i%5], Deco: true, Kids: []mnode{deco, leaves[i%len(leaves)], {T: "cond", Kw: "dk", Op: 2, Kids: []mnode{deco}}}})
+	}
+	// one instance stored in several places: as siblings, in two branches, below a Condition and next to it
+	for i := 0; i < len(d1); i += 4 {
+		st, lf := d1[i], leaves[i%len(leaves)]
+		k := kindNames[i%5]
+		in := mnode{T: "stack", Kind: "OR", Kids: []mnode{st, lf}}
+		cd := mnode{T: "cond", Kw: "sh", Op: 2, Kids: []mnode{st}}
+		trees = append(trees, mnode{T: "stack", Kind: k, Share: true, Kids: []mnode{st, st}}, mnode{T: "stack", Kind: k, Share: true, Kids: []mnode{st, lf, st}},
+			mnode{T: "stack", Kind: k, Share: true, Kids: []mnode{in, st}}, mnode{T: "stack", Kind: k, Share: true, Kids: []mnode{st, in, in}},
+			mnode{T: "stack", Kind: k, Share: true, Kids: []mnode{cd, st, cd}}, mnode{T: "stack", Kind: k, Share: true, Kids: []mnode{in, {T: "stack", Kind: "AND", Kids: []mnode{lf, in}}}})
 	}
 	// the long regime: wide stacks (well beyond the widths above), at the top, nested, as a Condition's
 	// expression, and with a nested Stack / Condition / nil somewhere in the middle
